@@ -6,4 +6,5 @@ export CARGO_NET_OFFLINE=true
 mkdir -p .work evidence replays
 (cd lean && lake build IdModel idmodel)
 (cd harness && cargo build --offline --quiet)
+(cd harness-sh && CARGO_TARGET_DIR="$PWD/target" cargo build --offline --quiet)
 echo setup-ok
